@@ -74,7 +74,7 @@ def load_already_processed_files_in_directory(directory: Optional[str]) -> Set[s
     already_processed = set()
 
     if directory is not None:
-        file_pattern = r"(.+?)(\.logits|\.xml|\.jpg)"
+        file_pattern = r"(.+)(\.logits|\.xml|\.jpg)$"
         regex = re.compile(file_pattern)
 
         for file in os.listdir(directory):
